@@ -13,6 +13,7 @@ Independent oracles:
 """
 
 import itertools
+import random
 import re
 
 from pyvc.api import Bounded
@@ -78,7 +79,7 @@ class _EchoResource(resource.Resource):
 
 
 class _Env:
-    def __init__(self, stack, policy, tweak=None):
+    def __init__(self, stack, policy):
         self.policy = policy
         self.log = []
         self.pending = []
@@ -429,8 +430,9 @@ class PipelineSplits(Bounded):
              "(http.Request subclass, Site + leaf Resource); answer policies sync / after each delivery / at end; "
              "byte-at-a-time for every stream x layer x policy; every 2-way split for singles (all layers, policies) and "
              "for pairs at the http layer under sync and after-each-delivery (thorough: every stream x layer x policy); "
-             "every 3-way split for singles at the http layer under sync (thorough: singles everywhere, and pairs of the "
-             "6 body shapes at the http layer under sync)")
+             "every 3-way split for the 15 singles of <= 80 bytes at the http layer under sync (thorough: all singles "
+             "everywhere, and the 16 pairs of "
+             "4 body shapes at the http layer under sync)")
     functions = ["HTTPChannel.dataReceived", "HTTPChannel.lineReceived", "HTTPChannel.headerReceived",
                  "HTTPChannel.allHeadersReceived", "HTTPChannel.rawDataReceived", "HTTPChannel.allContentReceived",
                  "HTTPChannel.requestDone", "HTTPChannel._finishRequestBody", "HTTPChannel._send100Continue",
@@ -460,9 +462,9 @@ class PipelineSplits(Bounded):
         cutsets = bytewise(n)
         if wide or len(names) == 1 or (stack == "http" and policy != "end"):
             cutsets += two_way(n)
-        if len(names) == 1 and (wide or (stack == "http" and policy == "sync")):
+        if len(names) == 1 and (wide or (stack == "http" and policy == "sync" and n <= 80)):
             cutsets += three_way(n)
-        elif wide and len(names) == 2 and stack == "http" and policy == "sync" and all(x in BODY_SHAPES for x in names):
+        elif wide and len(names) == 2 and stack == "http" and policy == "sync" and all(x in BODY_SHAPES[:4] for x in names):
             cutsets += three_way(n)
         return compare_splits(stack, policy, stream, cutsets, whole)
 
@@ -731,7 +733,6 @@ class LimitBoundaries(Bounded):
                 yield (kind, n, policy, tuple(rng.getrandbits(30) for _ in range(nrand)))
 
     def check(self, case):
-        import random
         kind, n, policy, seeds = case
         stream, marks = limit_stream(kind, n)
         size = len(stream)
